@@ -448,30 +448,36 @@ def headerLine (e : Bytes × Bytes) : Bytes := e.1 ++ ascii ": " ++ e.2 ++ crlf
 def toWire (status : Int) (text : Bytes) (headers : Headers) (body : Bytes) : Bytes :=
   ascii "HTTP/1.1 " ++ decInt status ++ [32] ++ text ++ crlf ++ (headers.flatMap headerLine) ++ crlf ++ body
 
-/-- the response of the error arm -/
-def errorWire (status : Nat) : Bytes :=
+/-- `isHeadRequest(requestData)`: the raw request starts with `HEAD ` — the method token of the request line, available in every
+    arm, also where the request was never parsed.  The arms outside the normal path (error arm, shutdown arm, `sendErrorResponse`)
+    build the header section a GET would get, Content-Length included, and clear the body for such a request (RFC 9110 §9.3.2) — if
+    the translator found that strip in all three (`Gen.errorArmsStripHead`, FC16f); otherwise they never look at the method. -/
+def isHeadRaw (data : Bytes) : Bool := Gen.HttpRespond.errorArmsStripHead && (ascii "HEAD ").isPrefixOf data
+
+/-- the response of the error arm (`head`: the body is cleared after Content-Length was set) -/
+def errorWire (status : Nat) (head : Bool := false) : Bytes :=
   let body := statusText status
   let h := hSet [] (ascii "Content-Type") (ascii Gen.HttpRespond.errContentType)
   let h := hSet h (ascii "Connection") (ascii Gen.HttpRespond.errConnection)
   let h := hSet h (ascii "Content-Length") (dec body.length)
-  toWire status body h body
+  toWire status body h (if head then [] else body)
 
 /-- the response of the shutdown arm -/
-def shutdownWire : Bytes :=
+def shutdownWire (head : Bool := false) : Bytes :=
   let body := ascii Gen.HttpRespond.shutdownBody
   let h := hSet [] (ascii "Content-Type") (ascii "text/plain")
   let h := hSet h (ascii "Content-Length") (dec body.length)
   let h := hSet h (ascii "Connection") (ascii "close")
-  toWire (Gen.HttpRespond.shutdownStatus : Nat) (ascii Gen.HttpRespond.shutdownText) h body
+  toWire (Gen.HttpRespond.shutdownStatus : Nat) (ascii Gen.HttpRespond.shutdownText) h (if head then [] else body)
 
-/-- mirrors `sendErrorResponse(sid, status, text, body)` as called on pool overflow -/
-def overflowWire : Bytes :=
+/-- mirrors `sendErrorResponse(sid, status, text, body, headRequest)` as called on pool overflow -/
+def overflowWire (head : Bool := false) : Bytes :=
   let body := if (ascii Gen.HttpRespond.overflowBody).isEmpty then ascii Gen.HttpRespond.overflowText else ascii Gen.HttpRespond.overflowBody
   let h := hSet [] (ascii "Content-Type") (ascii "text/plain")
   let h := hSet h (ascii "Content-Length") (dec body.length)
   let h := hSet h (ascii "Connection") (ascii "close")
   let h := hSet h (ascii "Server") (ascii Gen.HttpRespond.overflowServer)
-  toWire (Gen.HttpRespond.overflowStatus : Nat) (ascii Gen.HttpRespond.overflowText) h body
+  toWire (Gen.HttpRespond.overflowStatus : Nat) (ascii Gen.HttpRespond.overflowText) h (if head then [] else body)
 
 /-- the query loop: `key=value` pieces separated by '&', pieces without '=' ignored, last write wins -/
 def parseQuery (q : Bytes) : List (Bytes × Bytes) :=
@@ -574,14 +580,14 @@ inductive Call where
 
 /-- the error arm (the `catch` that closes the function's `try`): guarded Send of the error response, then — whatever the
     Send's completion said — the guarded Close -/
-def errorArm (env : Env) (status : Nat) : List Call :=
+def errorArm (env : Env) (status : Nat) (head : Bool := false) : List Call :=
   if !env.upAtSend then []
-  else .sendAsync (errorWire status) :: (if env.upAtClose then [.close] else [])
+  else .sendAsync (errorWire status head) :: (if env.upAtClose then [.close] else [])
 
 /-- a subclass seam threw: a `std::exception` reaches the error arm as a 500; anything else does so only if the arm is
     `catch (...)` (repaired code) — otherwise it leaves `processHttpRequest` and no call is made at all -/
-def seamThrew (env : Env) (std : Bool) : List Call :=
-  if std || Gen.HttpRespond.errCatchesAll then errorArm env Gen.HttpRespond.errDefaultStatus else []
+def seamThrew (env : Env) (std : Bool) (head : Bool := false) : List Call :=
+  if std || Gen.HttpRespond.errCatchesAll then errorArm env Gen.HttpRespond.errDefaultStatus head else []
 
 /-- the drain loop of the upgrade arm, AFTER the upgrade response was handed to the transport: `n` passes still find bytes,
     this is pass number `k`.  Each pass hands the whole session buffer to `onUpgradedData`.  Repaired code
@@ -618,19 +624,19 @@ def processCalls (srv : Server) (env : Env) (data : Bytes) : List Call × Bool :
   if env.shutdownAtEntry then
     -- shutdown arm: both blocks test `_transport` only (each in its own `_mutex` section); the Close does not depend on
     -- the Send's completion
-    (if env.transportAtEntry then .sendAsync shutdownWire :: (if env.transportAtShutdownClose then [.close] else []) else [], false)
+    (if env.transportAtEntry then .sendAsync (shutdownWire (isHeadRaw data)) :: (if env.transportAtShutdownClose then [.close] else []) else [], false)
   else
     match fromWireFormat data with
     | .error e =>
       let status := match e with
         | .request s => s
         | .other => Gen.HttpRespond.errDefaultStatus
-      (errorArm env status, false)
+      (errorArm env status (isHeadRaw data), false)
     | .ok p =>
       let req0 := mkReq p
       let upgraded : Seam (Option Resp) := if hasUpgradeHeader req0.headers then srv.upgradeHook req0 else .ret none
       match upgraded with
-      | .threw std => (seamThrew env std, false)
+      | .threw std => (seamThrew env std (isHeadRaw data), false)
       | .ret (some ures) =>
         -- the completion lambda of this send ignores the result; a close on this path only from the buffer drain
         ((if !env.upAtSend then []
@@ -644,7 +650,7 @@ def processCalls (srv : Server) (env : Env) (data : Bytes) : List Call × Bool :
         else
           -- `ranHandler && (res._suppressSend || onResponseSuppressed(...))`: the seam is consulted only if a handler ran
           match (if ranHandler then srv.suppressHook req res else .ret false) with
-          | .threw std => (seamThrew env std, false)
+          | .threw std => (seamThrew env std (isHeadRaw data), false)
           | .ret true => ([], true)
           | .ret false =>
             let (wire, shouldClose) := buildWire env req res
@@ -692,10 +698,10 @@ def Outcome.cmds : Outcome → List Cmd
 /-- mirrors `sendErrorResponse(sid, 503, …)` as called by `handleIncomingData` on pool overflow: under `_mutex`, guard
     `_transport && !_shutdown`; the completion lambda of its `sendAsync` closes the session whatever the completion says
     ("Always close the connection after sending error response"), inside the same `_mutex` section -/
-def overflowCalls (env : Env) : List Call :=
-  if !env.upAtSend then [] else [.sendAsync overflowWire, .close]
+def overflowCalls (env : Env) (head : Bool := false) : List Call :=
+  if !env.upAtSend then [] else [.sendAsync (overflowWire head), .close]
 
 /-- pool overflow on a running server: `sendErrorResponse` sends and closes inside one `_mutex` section -/
-def overflowCmds : List Cmd := [.send overflowWire, .close]
+def overflowCmds (head : Bool := false) : List Cmd := [.send (overflowWire head), .close]
 
 end Iora.HttpRespond
